@@ -119,7 +119,10 @@ type connKit struct {
 //
 // NOTE: This is part of the net.Conn interface.
 func (k *connKit) Read(b []byte) (int, error) {
-	if k.recvBuffer.Len() == 0 {
+	// A message may carry an empty payload (a zero length Write on the other
+	// side). Skip those: reading from an empty bytes.Buffer would report
+	// io.EOF although the stream continues.
+	for k.recvBuffer.Len() == 0 {
 		data := NewMsgData(ProtocolVersion, nil)
 		if err := k.impl.ReceiveControlMsg(data); err != nil {
 			return 0, err
